@@ -27,8 +27,6 @@ CONSTANTS
   TableFile      \* file the table is serialised to ("" = none)
 
 (* ------------------------------------------------------------ characters and strings *)
-RECURSIVE Cat(_)
-Cat(ss) == IF ss = <<>> THEN <<>> ELSE Head(ss) \o Cat(Tail(ss))
 RECURSIVE JoinWith(_, _)
 JoinWith(ss, sep) == IF ss = <<>> THEN <<>>
                      ELSE IF Len(ss) = 1 THEN ss[1]
@@ -103,11 +101,15 @@ ModBuild == {Pkg("cmd", S_cmd, <<>>, "main", TRUE, FALSE, TRUE),
              Pkg("lib", S_lib, <<>>, "lib", TRUE, FALSE, TRUE),
              Pkg("libx", S_libx, <<>>, "libx", TRUE, FALSE, TRUE),
              Pkg("sub", S_sub, <<>>, "sub", TRUE, FALSE, TRUE)}
-(* `garble test ./lib`: lib itself is listed but only its test variants are compiled *)
+(* `garble test ./lib`: lib itself is listed but only its test variants are compiled.      *)
+(* `go list -test -compiled` (go1.26) reports NO CompiledGoFiles for the generated test    *)
+(* main (its GoFiles entry is a file of the build cache), so files = FALSE for it: the     *)
+(* "no Go files" case of the switch comes before the ".test" case, which is therefore dead *)
+(* for real test mains (observed on the real tool: compile-start obfuscate=false).         *)
 ModTest == {Pkg("lib", S_lib, <<>>, "lib", TRUE, FALSE, FALSE),
             Pkg("lib[test]", S_lib_fortest, S_lib, "lib", TRUE, FALSE, TRUE),
             Pkg("lib_test", S_lib_xtest, S_lib, "lib_test", TRUE, FALSE, TRUE),
-            Pkg("lib.test", S_lib_testmain, <<>>, "main", TRUE, FALSE, TRUE),
+            Pkg("lib.test", S_lib_testmain, <<>>, "main", FALSE, FALSE, TRUE),
             Pkg("sub", S_sub, <<>>, "sub", TRUE, FALSE, TRUE)}
 
 (* `garble build main.go`: the main package is called command-line-arguments *)
@@ -155,21 +157,24 @@ Gogarble(pl) == IF ListText(pl) = <<>> THEN e_star ELSE ListText(pl)
 (* ------------------------------------------------------------ transcription: x/mod *)
 RECURSIVE IndexOf(_, _, _)
 IndexOf(cs, c, k) == IF k > Len(cs) THEN 0 ELSE IF cs[k] = c THEN k ELSE IndexOf(cs, c, k + 1)
-RECURSIVE CountOf(_, _)
-CountOf(cs, c) == IF cs = <<>> THEN 0 ELSE (IF Head(cs) = c THEN 1 ELSE 0) + CountOf(Tail(cs), c)
+RECURSIVE CountFrom(_, _, _)
+CountFrom(cs, c, k) == IF k > Len(cs) THEN 0 ELSE (IF cs[k] = c THEN 1 ELSE 0) + CountFrom(cs, c, k + 1)
+CountOf(cs, c) == CountFrom(cs, c, 1)
 HasPrefix(cs, pre) == Len(cs) >= Len(pre) /\ SubSeq(cs, 1, Len(pre)) = pre
 HasSuffix(cs, suf) == Len(cs) >= Len(suf) /\ SubSeq(cs, Len(cs) - Len(suf) + 1, Len(cs)) = suf
 TrimSuffix(cs, suf) == IF HasSuffix(cs, suf) THEN SubSeq(cs, 1, Len(cs) - Len(suf)) ELSE cs
 
 (* path.Match for patterns made of literal characters and "*":                  *)
 (* "*" matches any sequence of non-"/" characters                                *)
-RECURSIVE PathMatch(_, _)
-PathMatch(pat, name) ==
-  IF pat = <<>> THEN name = <<>>
-  ELSE IF Head(pat) = "*"
-       THEN \/ PathMatch(Tail(pat), name)
-            \/ (name # <<>> /\ Head(name) # "/" /\ PathMatch(pat, Tail(name)))
-       ELSE name # <<>> /\ Head(name) = Head(pat) /\ PathMatch(Tail(pat), Tail(name))
+(* (index based: i walks the pattern, j the name)                                *)
+RECURSIVE PathMatchAt(_, _, _, _)
+PathMatchAt(pat, i, name, j) ==
+  IF i > Len(pat) THEN j > Len(name)
+  ELSE IF pat[i] = "*"
+       THEN \/ PathMatchAt(pat, i + 1, name, j)
+            \/ (j <= Len(name) /\ name[j] # "/" /\ PathMatchAt(pat, i, name, j + 1))
+       ELSE j <= Len(name) /\ name[j] = pat[i] /\ PathMatchAt(pat, i + 1, name, j + 1)
+PathMatch(pat, name) == PathMatchAt(pat, 1, name, 1)
 
 (*  n := strings.Count(glob, "/"); prefix := target                              *)
 (*  for i := 0; i < len(target); i++ {                                           *)
@@ -298,10 +303,13 @@ Next == UNCHANGED vars
 Spec == Init /\ [][Next]_vars
 
 (* ToObf is ToObfuscate: the table lookup stands for the call it replaces (checked on    *)
-(* every state for one package, and on all of them in the -thorough configuration)        *)
-TableIsCall == \A p \in {q \in Listed(vsc) : q.id \in {"lib", "cla", "runtime"}} : ToObf(p, vpl) = ToObfuscate(p, Gogarble(vpl))
-TableIsCallAll == \A p \in Listed(vsc) : /\ ToObf(p, vpl) = ToObfuscate(p, Gogarble(vpl))
-                                          /\ Sel(p, vpl) = Selected(p, vpl)
+(* every pattern list and scenario for one package, and for all of them in the -thorough  *)
+(* configuration; the graph plays no role in the decision)                                *)
+TableIsCall == vgr = "diamond" => \A p \in {q \in Listed(vsc) : q.id \in {"lib", "cla", "runtime"}} : ToObf(p, vpl) = ToObfuscate(p, Gogarble(vpl))
+TableIsCallAll == vgr = "diamond" =>
+                  /\ \A p \in Listed(vsc) : /\ ToObf(p, vpl) = ToObfuscate(p, Gogarble(vpl))
+                                             /\ Sel(p, vpl) = Selected(p, vpl)
+                  /\ Rejected(vsc, vpl) = RejectedNoMatch(vsc, Gogarble(vpl))
 
 (* the decision taken by the code is the specified one, for every listed package *)
 Exact == \A p \in Listed(vsc) : ToObf(p, vpl) = Should(p, vpl)
@@ -312,11 +320,13 @@ NeverRuntime == \A p \in Listed(vsc) : DecisionPath(p) \in RuntimeAndDeps => ~To
 SiblingNotPrefix == (vpl = <<"lib">> /\ vsc = "build") => /\ ~ToObf(ById(vsc, "libx"), vpl)
                                                           /\ ToObf(ById(vsc, "sub"), vpl)
 
-(* test variants follow the package under test; the test main is always obfuscated *)
+(* test variants follow the package under test (ForTest) *)
 TestVariants == vsc = "test" =>
   /\ ToObf(ById("test", "lib[test]"), vpl) = ToObf(ById("test", "lib"), vpl)
   /\ ToObf(ById("test", "lib_test"), vpl) = ToObf(ById("test", "lib"), vpl)
-  /\ ToObf(ById("test", "lib.test"), vpl)
+(* a test main WITH listed files would always be obfuscated; the real one has none (see ModTest) *)
+TestMainRule == (vsc = "test" /\ vgr = "diamond") => \A fl \in BOOLEAN :
+  ToObfuscate(Pkg("lib.test", S_lib_testmain, <<>>, "main", fl, FALSE, TRUE), Gogarble(vpl)) = fl
 
 (* when the specification wants nothing that is LISTED obfuscated, the command is rejected, *)
 (* unless the user named the runtime (cache_shared.go: "GOGARBLE=* garble build runtime")   *)
